@@ -369,7 +369,8 @@ def runPlan (tables : List Table) (spec : Bool) : Nat → Sexp → Except String
           | .leftOuter => .ok { base with chunks := nlJoin true pr nR lo.chunks ro.chunks }
           | .semi => .ok { base with chunks := nlSemiJoin false pr lo.chunks ro.chunks }
           | .anti => .ok { base with chunks := nlSemiJoin true pr lo.chunks ro.chunks }
-          | _ => .ok { base with chunks := [], unsupported := some "nested-loop right/full outer join is todo!()" }
+          | .rightOuter => .ok { base with chunks := nlJoinG false true pr nL nR lo.chunks ro.chunks }
+          | .fullOuter => .ok { base with chunks := nlJoinG true true pr nL nR lo.chunks ro.chunks }
       | .error e, _, _ => .error e
       | _, .error e, _ => .error e
       | _, _, _ => .error "bad join"
